@@ -621,3 +621,47 @@ func (s *script) normalize() {
 	}
 	s.Events = out
 }
+
+// genStalledScript builds scripts around one schedule the weighted profiles
+// reach only rarely: after a canonical handshake the writer is stalled by the
+// write gate while several inventory trickle intervals pass (inventory queued
+// before each), then ordinary sends are queued and the connection ends (or the
+// gate opens). The peer must neither wedge its queue handler nor lose a
+// completion signal.
+func genStalledScript() *rapid.Generator[*script] {
+	return rapid.Custom(func(t *rapid.T) *script {
+		cfg := genCfg(t)
+		cfg.TrickleMs = 1
+		sc := &script{Cfg: cfg, Mode: "clean"}
+		sc.Events = append(sc.Events,
+			event{K: eRemote, R: genVersion(t, genGoodPver(t), false)},
+			event{K: eRemote, R: rspec{K: rVerAck}},
+			event{K: eSettle},
+			event{K: eGateWrites, N: pick(t, "gateN", byteSteps[:7])})
+		rounds := 2 + uni(t, "rounds", 5)
+		for i := 0; i < rounds; i++ {
+			for j := 0; j <= uni(t, "invsPerRound", 2); j++ {
+				sc.Events = append(sc.Events, event{K: eLocal, Op: qop{K: opInv, InvType: pick(t, "invType", []uint32{invTx, invTx, invWitnessTx, invBlock})}})
+			}
+			sc.Events = append(sc.Events, event{K: ePause, N: 2500 + 500*uni(t, "pause", 6)})
+		}
+		for i := uni(t, "nQueue", 5); i > 0; i-- {
+			sc.Events = append(sc.Events, event{K: eLocal, Op: genQueueOp(t)})
+		}
+		if uni(t, "spawn?", 3) == 0 {
+			sc.Events = append(sc.Events, event{K: eSpawn, Ops: genWorkerOps(t)})
+		}
+		switch uni(t, "ending", 6) {
+		case 0, 1:
+			sc.Events = append(sc.Events, event{K: eLocal, Op: qop{K: opDisconnect}})
+		case 2:
+			sc.Events = append(sc.Events, event{K: eRemoteClose})
+		case 3:
+			sc.Events = append(sc.Events, event{K: eOpenWrites}, event{K: eSettle})
+		case 4:
+			sc.Events = append(sc.Events, event{K: eWriteFail, N: pick(t, "failN", byteSteps)})
+		}
+		sc.normalize()
+		return sc
+	})
+}
